@@ -12,6 +12,7 @@ import Ww.Driver.Sched
 import Ww.Driver.Fault
 import Ww.Driver.C20
 import Ww.Driver.C19
+import Ww.Driver.C09
 open Ww.Driver
 
 def dispatch (l : Line) : List Verdict :=
@@ -45,6 +46,11 @@ def dispatch (l : Line) : List Verdict :=
   | "start20" => handleStart20 l
   | "logscan" => handleLogScan l
   | "shutdown19" => handleShutdown19 l
+  | "crypt" => handleCrypt l
+  | "nonces" => handleNonces l
+  | "cookiedec" => handleCookieDec l
+  | "tamper09" => handleTamper09 l
+  | "outscan" => handleOutScan l
   | k => [Verdict.bad s!"unknown kind {k}"]
 
 partial def loop (h : IO.FS.Stream) (out : IO.FS.Stream) (i : Nat) : IO Unit := do
